@@ -269,6 +269,37 @@ def run(ctx):
                 idxs = sorted(order.index(sn) for sn in per_inst[inst])
                 if len(idxs) > 1 and idxs[-1] - idxs[0] + 1 > len(idxs):
                     ctx.count('trace_reader_instance_in_non_adjacent_snapshots')
+                # ... and the whole reader, AppTraceLoop.run(snapshot=True) with a recording handler: when the
+                # snapshots are listed oldest first (what their sequence numbers give once sorted) every archived
+                # and every live event of the instance reaches the consumer (the loop drops an event that is
+                # older than the one before it, so the order in which history and live events are read matters)
+                srv.child_order = 'sorted'
+                try:
+                    delivered = []
+                    loop2 = app_zk.AppTraceLoop(srv.client('trace-reader-2'), inst, None)
+                    loop2._process_event = (                    # pylint: disable=protected-access
+                        lambda name, ts, src, etype, edata, _ctx, delivered=delivered:
+                        delivered.append(','.join([name, ts, src, etype, edata])))
+                    loop2.run(snapshot=True)
+                finally:
+                    srv.child_order = 'hash'
+                live_now = sorted(os.path.basename(p_) for p_ in live_sets()[0] if os.path.basename(p_).split(',')[0] == inst)
+                # reference: history oldest snapshot first, then the live events; within each listing sorted; an
+                # event older than the one delivered before it (or identical) is skipped - the loop's documented rule
+                expect, last = [], None
+                for listing in [per_inst[inst].get(sn, []) for sn in order] + [live_now]:
+                    for ev in sorted(tuple(n.split(',')) for n in listing):
+                        if last is not None and (ev[1] < last[1] or ev == last):
+                            continue
+                        expect.append(','.join(ev))
+                        last = ev
+                ctx.count('trace_reader_run_checked')
+                if delivered != expect:
+                    missing = [e for e in expect if e not in delivered]
+                    ctx.violation('trace-reader-run-drops-events' if missing else 'trace-reader-run-differs',
+                                  '%s: reading history then live events should deliver %d events, the reader delivered %d; '
+                                  'e.g. %s' % (inst, len(expect), len(delivered), (missing or delivered)[0]),
+                                  case=dict(case=idx, archived=len(want), live=len(live_now)))
                 if not set(want) <= set(handed):
                     miss = sorted(set(want) - set(handed))
                     ctx.violation('trace-reader-misses-archived-events', '%s: %d archived events in present snapshots %s, the reader was '
